@@ -28,7 +28,7 @@ def main():
             except Exception as e:
                 C.log("[setup] pregen %s: %s" % (p, e))
     for p in props():
-        os.makedirs(os.path.join(C.WORK, "extract", p), exist_ok=True)
+        os.makedirs(os.path.join(C.EXTRACT_ROOT, p), exist_ok=True)
     C.coq_makefile()
     ok, lg = C.coq_make([], timeout=3400)
     if not ok:
